@@ -36,7 +36,7 @@ fn deep_borrow(t: &refabi::Ty) -> bool {
     }
 }
 
-const VALUE_SIGS: &[&str] =&["value-changed-export-to-import", "value-changed-import-to-export", "undecodable-value", "import-call-count", "import-arity", "import-unexpected", "import-name", "load-error"];
+const VALUE_SIGS: &[&str] = &["value-changed-in-implementation", "value-changed-export-to-import", "value-changed-import-to-export", "undecodable-value", "import-call-count", "import-arity", "import-unexpected", "import-name", "load-error"];
 const HEAP_SIGS: &[&str] = &["heap-leak", "heap-misuse"];
 
 pub fn run(check: &mut Check) {
@@ -71,7 +71,9 @@ pub fn run(check: &mut Check) {
                 if v.starts_with("borrowed") && w.funcs.iter().any(|f| f.params.iter().any(deep_borrow)) {
                     (v, a) = vars[0].clone();
                 }
-                exec::rust_member(idx + i, w, v, &a)
+                // value probes through the generated types where their names are the plain ones
+                let probe = matches!(v, "default" | "no-std" | "raw-strings" | "hashmap");
+                exec::rust_member_probed(idx + i, w, v, &a, probe)
             })
             .collect();
         idx += chunk.len();
@@ -80,6 +82,9 @@ pub fn run(check: &mut Check) {
             let label = serde_json::json!({"variant": m.variant, "wit": if m.wit.len() < 600 { m.wit.clone() } else { format!("{}...", &m.wit[..600]) }, "calls": m.world.calls.len()});
             check.case("worlds", &label, |_, obs| {
                 obs.label(m.variant.clone());
+                if m.world.funcs.iter().any(|f| f.params.iter().chain(f.result.iter()).any(exec::has_numeric_aggregate_list)) {
+                    obs.label("list-of-numeric-aggregate");
+                }
                 let so = match b {
                     Ok(p) => p,
                     Err(e) => {
